@@ -52,6 +52,8 @@ func Now() time.Time {
 		return time.Now()
 	}
 	Sched("time.Now")
+	t := &x.threads[x.cur]
+	t.lastNow, t.hasLastNow = x.clock, true
 	return Epoch.Add(time.Duration(x.clock))
 }
 
